@@ -129,6 +129,7 @@ class Engine(TorchDispatchMode):
         super().__init__()
         self.opts = dict(opts or {})
         self.store = {}  # storage cdata -> (storage, flat object array)
+        self.rng_calls = []   # (op, generator argument) of every random op executed on this path
         self.solver = z3.Solver()
         self.qtimeout = int(self.opts.get("query_timeout_ms", 60000))
         self.solver.set("timeout", self.qtimeout)
